@@ -154,12 +154,13 @@ impl ScmSocket for UnixStream {
         self.fd
     }
 
-    /// The only way `HttpConnection` reads. No descriptors are passed at server level
-    /// in the simulation (descriptor passing is decided at connection level).
+    /// The only way `HttpConnection` reads. Descriptors a simulated client passed are real
+    /// descriptors (pipe ends made by the harness); ordering and ownership rules are decided at
+    /// connection level, here it is about what the *server* keeps alive.
     unsafe fn recv_with_fds(
         &self,
         iovecs: &mut [libc::iovec],
-        _fds: &mut [RawFd],
+        fds: &mut [RawFd],
     ) -> errno::Result<(usize, usize)> {
         if iovecs.is_empty() {
             return Ok((0, 0));
@@ -168,7 +169,12 @@ impl ScmSocket for UnixStream {
         // SAFETY: the caller guarantees the iovec describes writable memory.
         let buf = std::slice::from_raw_parts_mut(iov.iov_base as *mut u8, iov.iov_len);
         match self.do_read(buf) {
-            Ok(n) => Ok((n, 0)),
+            Ok(n) => {
+                // descriptors a client passed (real ones) arrive with the byte they ride on
+                let got = if n > 0 { with(|w| w.take_passed(self.fd, fds.len())) } else { Vec::new() };
+                fds[..got.len()].copy_from_slice(&got);
+                Ok((n, got.len()))
+            }
             Err(e) => Err(errno::Error::new(e)),
         }
     }
